@@ -114,7 +114,7 @@ def finalize(m: dict, tier: str) -> list[str]:
         if not s.get(k):
             out.append(f"key class {k} never exercised")
     for k in ("scripts", "address", "roundtrip", "checksum", "import_request", "index_of:own", "index_of:foreign", "index_of:beyond-range", "normalized", "at_index",
-              "corrupt:substitution", "corrupt:deletion", "multipath:expansion", "multipath:scripts",
+              "corrupt:substitution", "corrupt:deletion", "multipath:expansion", "multipath:scripts", "multipath:corrupt",
               "wallet:BIP32KeyWallet:position_of", "wallet:DescriptorWallet:position_of", "wallet:ScriptWallet:position_of",
               "wallet:BIP32KeyWallet:foreign", "wallet:DescriptorWallet:foreign", "wallet:ScriptWallet:foreign",
               "wallet:BIP32KeyWallet:script", "wallet:DescriptorWallet:script", "wallet:ScriptWallet:script", "wallet:KeyWallet:address",
@@ -993,6 +993,28 @@ def shard_multipath(ctx: Ctx) -> None:
                     ctx.violation("multipath-expansion-derives-other-scripts", f"expansion {j} of {text[:80]} at {i}",
                                   {**case, "expansion": j, "index": i, "reference_scripts": [x.hex() for x in wantj]})
         ctx.case("multipath", ("mp", given, net), sample=case)
+        # a corrupted multipath text is a corrupted descriptor string: the expansion entry must refuse it too
+        if "#" in given:
+            for _ in range(6):
+                pos = r.randrange(len(given))
+                c = r.choice(w.rd.INPUT_CHARSET)
+                mut = given[:pos] + c + given[pos + 1:] if r.random() < 0.8 else given[:pos] + given[pos + 1:]
+                body, sep, tail = mut.partition("#")
+                if mut == given or (sep and "#" not in tail and w.rd.descsum_create(body) == tail):
+                    continue
+                where = "body" if pos < len(text) else ("hash" if pos == len(text) else "checksum")
+                mo = outcome(D.multipath_descriptors, mut)
+                ctx.mon("multipath:corrupt")
+                ctx.classes[f"multipath:corrupt:{where}"] += 1
+                mcase = {"original": given, "mutated": mut, "position": pos, "network": net}
+                # the expansion is textual and each result "a descriptor to be parsed on its own": a text whose '#' is
+                # gone carries no checksum to verify, and is refused where its expansions are parsed
+                if mo[0] == "ok" and any(outcome(D.parse, x, net)[0] == "ok" for x in mo[1]):
+                    ctx.violation(f"corrupted-multipath-descriptor-accepted:{where}",
+                                  f"character {pos} ({where}) of {given[:80]} changed and multipath_descriptors answered", mcase)
+                elif mo[0] == "raise" and not is_lib_exc(mo[1]):
+                    ctx.violation(f"corrupted-descriptor:foreign-exception:{type(mo[1]).__name__}@{tb_origin(mo[1])}",
+                                  f"multipath_descriptors: {mo[1]!r}", mcase)
         # BIP389's shape rules, as statistics: the property is about what an expansion yields
         if it % 10 == 0:
             bad = text.replace(">", ";7>", 1) if text.count("<") > 1 else None
